@@ -129,7 +129,8 @@ class Recorder:
             def __call__(s, arr):
                 v = s.real(arr)
                 if rec.script is not None:
-                    v = rec.script.energy(rec.ncalc)
+                    # the scripted measure of a configuration with undefined coordinates is undefined too
+                    v = rec.script.energy(rec.ncalc) if np.isfinite(arr).all() else np.float64("nan")
                 rec.ncalc += 1
                 rec.keep.append(arr)
                 if rec.init is None:
@@ -329,6 +330,64 @@ def gen_case(rs, mode=None, budget=None):
     return case
 
 
+def gen_degenerate(rs, budget=None):
+    """start configurations on which the single-atom move divides 0/0 (type 2 always enabled):
+    'line'       a branched molecule (one bead with >= 3 neighbours) laid on a straight line: the cross product of the
+                 neighbour differences is exactly the zero vector;
+    'coincident' a leaf sitting on its only neighbour, or the two neighbours of a bead at the same point.
+    The unchanged search rejects such trials (nan measure) and goes on from the finite held configuration."""
+    case = gen_case(rs, mode="real" if rs.randint(0, 4) else "scripted", budget=budget)
+    n2 = int(rs.randint(4, 9))
+    kind = ["line", "line", "coincident"][rs.randint(0, 3)]
+    # a tree whose bead 1 has the neighbours 0, 2, 3 (in this order in the bond table)
+    bonds = [[0, 1], [1, 2], [1, 3]] + [[int(rs.randint(0, k)), k] for k in range(4, n2)]
+    if kind == "line":
+        dirs = [(1.0, 0.0, 0.0), (0.0, 1.0, 0.0), (0.0, 0.0, 1.0), (0.5, 0.5, 0.0), (0.25, -0.5, 0.5)]
+        d = np.array(dirs[rs.randint(len(dirs))])
+        t = rs.permutation(n2).astype(float) if rs.randint(2) else np.arange(n2, dtype=float)
+        origin = rs.randint(-4, 5, size=3) * 0.125
+        mol2 = origin + np.outer(t * 0.5, d)
+    else:
+        mol2 = rs.uniform(-0.6, 0.6, size=(n2, 3))
+        if rs.randint(2):
+            mol2[0] = mol2[1]            # leaf 0 on its only neighbour
+        else:
+            mol2[2] = mol2[0]            # the first two neighbours of bead 1 at the same point
+            mol2[3] = mol2[0] if rs.randint(2) else mol2[3]
+    sub = sorted(set([2] + [int(x) for x in SUBSETS[rs.randint(len(SUBSETS))]]))
+    if rs.randint(3) == 0:
+        sub = [2]
+    n1 = len(case["mol1"])
+    case["restr"] = [r for r in case["restr"] if r[1] < n2] if rs.randint(2) else \
+        [[int(rs.randint(n1)), int(rs.randint(n2))] for _ in range(int(rs.randint(0, 3)))]
+    # at least one fixed atom stays unrestrained, so that every mobile atom enters the measure (with every fixed atom
+    # restrained the measure only reads the restrained mobile atoms and an undefined unrestrained atom is invisible
+    # to it: see docs/design_notes/C09.md, "finding outside the generated domain")
+    while case["restr"] and len(set(r[0] for r in case["restr"])) >= n1:
+        case["restr"] = case["restr"][:-1]
+    case.update({"mol2": mol2.tolist(), "bonds": bonds, "sim_type": sub, "degenerate": kind})
+    if case["n_steps"] > 100:
+        case["n_steps"] = int(rs.choice([5, 20, 40, 100]))
+    if case.get("script"):
+        case["script"]["period"] = max(1, case["n_steps"] + int(rs.randint(-1, 2)))
+    return case
+
+
+def demo_cases():
+    """the witness of seeded/C09-8 (= seeded/C06-3): 5-bead branched molecule typed on the x axis"""
+    mol1 = [[0.0, 0.3, 0.1], [0.5, -0.3, 0.0], [1.0, 0.3, -0.1], [1.5, -0.3, 0.0], [2.0, 0.3, 0.1], [2.5, -0.3, 0.0],
+            [1.0, 0.9, 0.3], [1.0, 1.5, 0.2]]
+    mol2 = [[0.0, 0.0, 0.0], [0.7, 0.0, 0.0], [1.4, 0.0, 0.0], [2.1, 0.0, 0.0], [2.8, 0.0, 0.0]]
+    out = []
+    for restr in ([], [[0, 0]]):
+        for sim in ([0, 1, 2], [2]):
+            for seed in range(10):
+                out.append({"kind": "run", "mode": "real", "seed": seed, "mol1": mol1, "mol2": mol2,
+                            "bonds": [[0, 1], [1, 2], [1, 3], [3, 4]], "restr": restr, "sim_type": sim, "n_steps": 40,
+                            "sigma_scale": 0.5, "width": 0.5, "degenerate": "demo"})
+    return out
+
+
 def gen_accept(rs):
     """(e0, e1, u) for accept_metropolis called directly: ties, zeros, thresholds, non-finite"""
     k = rs.randint(0, 10)
@@ -341,7 +400,7 @@ def gen_accept(rs):
         e0 = float(10 ** rs.uniform(-3, 3))
         e1 = float(np.nextafter(e0, [0.0, np.inf][rs.randint(2)])) if rs.randint(3) else e0
     elif k == 7:
-        sp = [float("nan"), float("inf"), -1.0, 0.0, -0.0, 1.0]
+        sp = [float("nan"), float("inf"), -1.0, 0.0, -0.0, 1.0, float("nan"), float(10 ** rs.uniform(-3, 3))]
         e0, e1 = sp[rs.randint(len(sp))], sp[rs.randint(len(sp))]
     else:
         e1 = float(10 ** rs.uniform(-3, 3))
@@ -385,9 +444,11 @@ def impl_accept(e0, e1, u):
 
 
 # ---------------------------------------------------------------------------------------------- S oracle
-def naive_chi2(fixed, mobile, restr):
+def naive_chi2(fixed, mobile, restr, decided=None):
     """C08's sentence, written as loops: restrained pairs + nearest mobile atom of every unrestrained fixed atom,
-    times 1.1^k, k = number of mobile atoms neither restrained nor nearest to an unrestrained fixed atom."""
+    times 1.1^k, k = number of mobile atoms neither restrained nor nearest to an unrestrained fixed atom.
+    decided (a list) receives False when some nearest atom is not unique to 1e-9 (coincident mobile atoms): which of
+    them counts as 'nearest' then depends on the last bit and the value is only defined up to a factor 1.1."""
     total = 0.0
     restrained_fixed = set(i for i, _ in restr)
     used = set(j for _, j in restr)
@@ -396,11 +457,15 @@ def naive_chi2(fixed, mobile, restr):
     for i in range(len(fixed)):
         if i in restrained_fixed:
             continue
-        best, bj = None, None
+        best, bj, second = None, None, None
         for j in range(len(mobile)):
             d = sum((fixed[i][c] - mobile[j][c]) ** 2 for c in range(3))
             if best is None or d < best:
-                best, bj = d, j
+                best, bj, second = d, j, best
+            elif second is None or d < second:
+                second = d
+        if decided is not None and second is not None and not (second - best > 1e-9 * max(second, 1e-300)):
+            decided.append(False)
         total += best
         used.add(bj)
     return total * 1.1 ** (len(mobile) - len(used))
@@ -416,10 +481,25 @@ def same_bits(a, b):
 
 
 def oracle_accept(e0, e1, u):
-    """the acceptance sentence on one direct call (domain: finite measures >= 0)"""
-    if not (math.isfinite(e0) and math.isfinite(e1) and e0 >= 0 and e1 >= 0):
+    """the acceptance sentence on one direct call.  Domain: measures >= 0 (incl. +inf), and nan.
+    A nan measure is not "equal or lower" and cannot win the draw: whenever either measure is nan the proposal is
+    rejected, after one uniform draw (what the rule `u <= 0.01*E0/E1` gives for a non-number); checked with numpy
+    scalars, the type the search passes (a Python-float nan/0.0 raises instead)."""
+    def dom(x):
+        return math.isnan(x) or x >= 0
+    if not (dom(e0) and dom(e1)):
         return []
     bad = []
+    if math.isnan(e0) or math.isnan(e1):
+        r = impl_accept(np.float64(e0), np.float64(e1), u)
+        if r[0] != "ok":
+            bad.append("accept_metropolis(%r, %r) raised %s" % (e0, e1, r[1]))
+        else:
+            if r[1]:
+                bad.append("a measure that is not a number was accepted: accept_metropolis(%r, %r) = True" % (e0, e1))
+            if not r[2]:
+                bad.append("accept_metropolis(%r, %r): proposal not equal or lower, yet decided without the uniform draw" % (e0, e1))
+        return bad
     for conv in (float, np.float64):
         r = impl_accept(conv(e0), conv(e1), u)
         if r[0] != "ok":
@@ -432,6 +512,8 @@ def oracle_accept(e0, e1, u):
             thr = ACCEPTANCE * e0 / e1
             if abs(u - thr) > 1e-12 * max(thr, 1e-300) and r[1] != (u <= thr):
                 bad.append("worse proposal: accept_metropolis(%r, %r) with u=%r returned %r, 0.01*E0/E1=%r" % (e0, e1, u, r[1], thr))
+            if not r[2]:
+                bad.append("worse proposal decided without the uniform draw: accept_metropolis(%r, %r)" % (e0, e1))
     return bad
 
 
@@ -454,8 +536,9 @@ def oracle_trace(case, tr):
 
     def measure_ok(arr, val, what):
         if real:
-            ref = naive_chi2(mol1.tolist(), np.asarray(arr).tolist(), restr)
-            if not (abs(val - ref) <= TOL * max(abs(ref), 1e-12)):
+            dec = []
+            ref = naive_chi2(mol1.tolist(), np.asarray(arr).tolist(), restr, dec)
+            if not dec and not (abs(val - ref) <= TOL * max(abs(ref), 1e-12)):
                 bad.append("%s: measure %r is not the overlap measure %r of that configuration" % (what, float(val), ref))
     held, e_held = tr["init"], tr["e_init"]
     measure_ok(held, e_held, "initial configuration")
@@ -471,13 +554,20 @@ def oracle_trace(case, tr):
         if "test" not in st or "acc" not in st or "e0" not in st:
             bad.append("step %d: proposal not evaluated / not judged" % k)
             break
+        if not np.isfinite(held).all():
+            bad.append("step %d: the configuration held is not finite" % k)
+            break
         test, e1 = st["test"], st["e1"]
         # judged against the measure of the configuration currently held
         if not (st["e0"] == e_held):
             bad.append("step %d: judged against %r but the held configuration has measure %r" % (k, float(st["e0"]), float(e_held)))
-        if not (st["e1_arg"] == e1):
+        if not (st["e1_arg"] == e1 or (np.isnan(st["e1_arg"]) and np.isnan(e1))):
             bad.append("step %d: judged with %r but the proposal has measure %r" % (k, float(st["e1_arg"]), float(e1)))
-        measure_ok(test, e1, "step %d proposal" % k)
+        # a trial with undefined coordinates (0/0 in the single-atom move on a degenerate geometry: collinear or
+        # coincident neighbours) has no measure; it can only be rejected (below)
+        undefined = not np.isfinite(test).all()
+        if not undefined:
+            measure_ok(test, e1, "step %d proposal" % k)
         if "held" in st and not same_bits(st["held"], held):
             bad.append("step %d: the configuration held is not the last accepted one" % k)
         # kind
@@ -512,21 +602,23 @@ def oracle_trace(case, tr):
                 bad.append("step %d: the evaluated proposal is not the result of the single-atom move" % k)
             for a, lst in table.items():          # trees: every bond keeps its tabulated length
                 for b, length in lst:
-                    if abs(np.linalg.norm(test[a] - test[b]) - length) > TOL * max(length, 1.0):
+                    if not undefined and abs(np.linalg.norm(test[a] - test[b]) - length) > TOL * max(length, 1.0):
                         bad.append("step %d: single-atom move changed bond %d-%d" % (k, a, b))
                         break
-            if (np.abs(test - held).max(axis=1) > 0).sum() < 1:
+            if not undefined and (np.abs(test - held).max(axis=1) > 0).sum() < 1:
                 bad.append("step %d: single-atom move moved nothing" % k)
         else:
             prop_kind = None
             bad.append("step %d: proposal is not a translation, a rotation or a single-atom move (draws %r)" % (k, gens))
         if prop_kind is not None and prop_kind != kind:
             bad.append("step %d: type %r drawn but proposal of type %r made" % (k, kind, prop_kind))
-        if not np.isfinite(test).all():
-            bad.append("step %d: non-finite proposal" % k)
+        if undefined and prop_kind in (0, 1):
+            bad.append("step %d: non-finite translation/rotation of a finite configuration" % k)
         # acceptance rule
         acc = st["acc"]
         us = st.get("us", [])
+        if (undefined or not np.isfinite(e1)) and acc:
+            bad.append("step %d: a proposal with undefined coordinates / measure (%r) was accepted" % (k, float(e1)))
         if e1 <= e_held:
             if not acc:
                 bad.append("step %d: equal or lower measure rejected (%r <= %r)" % (k, float(e1), float(e_held)))
@@ -557,6 +649,8 @@ def oracle_trace(case, tr):
         res = tr["result"]
         if res is None or not same_bits(res, held):
             bad.append("the returned configuration is not the last accepted one")
+        if res is not None and not np.isfinite(np.asarray(res, dtype=float)).all():
+            bad.append("the returned configuration is not finite")
         if not tr["inputs_unchanged"]:
             bad.append("the caller's arrays were modified")
     return bad
@@ -677,6 +771,13 @@ CORPUS_ACCEPT = [
     (2.0, 0.0, 0.999),    # new measure zero
     (0.0, 1.0, 0.0),      # held measure zero, worse proposal: probability 0
     (1.0, 2.0, 0.005),    # u = threshold exactly
+    (3.7, float("nan"), 0.0),             # seeded C09-8 / C06-3: a nan measure is never accepted, one draw
+    (float("nan"), 3.7, 0.0),
+    (float("nan"), float("nan"), 0.0),
+    (3.7, float("inf"), 0.0),             # probability 0.01*3.7/inf = 0: u = 0 is accepted, anything else not
+    (3.7, float("inf"), 0.25),
+    (float("inf"), float("inf"), 0.25),   # equal
+    (float("inf"), 3.7, 0.25),            # lower
 ]
 
 
@@ -688,7 +789,7 @@ def corpus_cases():
         c = gen_case(rs, mode="scripted", budget=b)
         c["script"]["kind"] = "zero"
         out.append(c)
-    return out
+    return out + demo_cases()
 
 
 def corpus(ctx):
@@ -724,7 +825,8 @@ def correspondence(ctx):
     S["runs"] = 0
     pydis = []
     gcases = []
-    runs = [gen_case(rs) for _ in range(n_runs)] + [gen_case(rs, budget=b) for b in budgets_extra(ctx)] + corpus_cases()
+    runs = [gen_case(rs) for _ in range(n_runs)] + [gen_case(rs, budget=b) for b in budgets_extra(ctx)] + \
+        [gen_degenerate(rs) for _ in range(ctx.n(60, 800))] + corpus_cases()
     for case in runs:
         tr = run_case(case)
         # S on the same run
@@ -754,6 +856,11 @@ def correspondence(ctx):
             if st.get("counter") is not None:
                 hist["counter_observed"] += 1
         hist["resets"] += sum(1 for s in tr["steps"][1:] if s.get("counter") == 0)
+        dk = case.get("degenerate", "generic")
+        hist.setdefault("start_geometry", {})
+        hist["start_geometry"][dk] = hist["start_geometry"].get(dk, 0) + 1
+        hist["undefined_trials"] = hist.get("undefined_trials", 0) + sum(
+            1 for s in tr["steps"] if "e1" in s and not np.isfinite(s["e1"]))
         if tr["error"]:
             continue
         if tr["aborted"]:
@@ -774,7 +881,7 @@ def correspondence(ctx):
             for term_g, k in geo_terms(tr, helds(tr))[: max(4, max_geo // len(runs) + 1)]:
                 gcases.append((term_g, dict(case, geometry_step=k + 1)))
     ctx.sample({k: runs[0][k] for k in ("mode", "seed", "sim_type", "n_steps", "restr", "bonds")})
-    ctx.sample({k: runs[-1][k] for k in ("mode", "seed", "sim_type", "n_steps", "restr", "script")})
+    ctx.sample({k: runs[-1].get(k) for k in ("mode", "seed", "sim_type", "n_steps", "restr", "script", "degenerate")})
     for term_g, m in gcases:
         cases.append(term_g)
         meta.append(m)
@@ -827,8 +934,8 @@ def oracle(ctx, scale):
     S = ctx.cov["S"]
     n = ctx.n(60, 1500) * scale
     fails = 0
-    for _ in range(n):
-        case = gen_case(rs)
+    for i in range(n):
+        case = gen_degenerate(rs) if i % 4 == 3 else gen_case(rs)
         tr = run_case(case)
         bad = oracle_trace(case, tr)
         ctx.count(("srun", case["seed"], case["n_steps"], tuple(case["sim_type"])), nontrivial(tr))
